@@ -23,6 +23,7 @@ type Clause struct {
 
 type LoopSpec struct {
 	Invariants []*Clause
+	Steps      []*Clause // transition invariants: checked at every back edge, may use prev(e) = value at the loop head of this iteration
 	Decreases  *Clause
 }
 
@@ -99,7 +100,7 @@ var clauseKeywords = map[string]bool{
 	"inline": true, "trusted": true, "assume": true,
 }
 
-var headerRe = regexp.MustCompile(`^func\s*(?:\(\s*(?:(\w+)\s+)?\*?([\w.]+)(?:\[[^\]]*\])?\s*\)\s*)?([\w$.]+)\s*\(`)
+var headerRe = regexp.MustCompile(`^func\s*(?:\(\s*(?:(\w+)\s+)?\*?([\w.]+)(?:\[[^\]]*\])?\s*\)\s*)?([\w$.#]+)\s*\(`)
 
 // stripComment removes a trailing // comment (outside of quotes).
 func stripComment(s string) string {
@@ -474,6 +475,8 @@ func (db *SpecDB) LoadFile(file string, defaultPkg string) error {
 			switch kind {
 			case "invariant":
 				ls.Invariants = append(ls.Invariants, c)
+			case "step":
+				ls.Steps = append(ls.Steps, c)
 			case "decreases":
 				ls.Decreases = c
 			default:
